@@ -365,9 +365,114 @@ func isIntLike(t types.Type) (bits int, signed bool, ok bool) {
 	return 0, false, false
 }
 
+// exactUnsigned64, while set, makes the engine treat uint64 arithmetic as exact too (no wrap). Only
+// the window-coverage rule sets it, for one function whose operands are record numbers (below
+// 2^48) and a window size; everything else keeps unsigned arithmetic opaque.
+var exactUnsigned64 bool
+
 func exactArith(t types.Type) bool {
 	bits, signed, ok := isIntLike(t)
+	if exactUnsigned64 && ok && bits == 64 {
+		return true
+	}
 	return ok && signed && bits == 64
+}
+
+// freshAnExactUnsigned builds an analysis of fn outside the cache, with uint64 arithmetic exact.
+// The caller keeps exactUnsigned64 set while it uses the result.
+func freshAnExactUnsigned(fn *ssa.Function) *fnAn {
+	a := &fnAn{fn: fn, facts: map[*ssa.BasicBlock][]cons{}}
+	if fn.Blocks != nil {
+		a.buildLoads()
+		a.computeInvariants()
+	}
+	return a
+}
+
+// proveAny: facts entail one of the goals (each ">= 0"); phis that merge values before the point
+// are split by incoming edge, and a different goal may hold on each edge.
+func (a *fnAn) proveAny(facts []cons, goals []lin, depth int) bool {
+	for _, g := range goals {
+		if g.ok && a.prove(facts, g, 0) {
+			return true
+		}
+	}
+	if depth >= 3 {
+		return false
+	}
+	var cands []atom
+	seenC := map[atom]bool{}
+	for _, g := range goals {
+		for at := range g.c {
+			if phi, ok := at.v.(*ssa.Phi); ok && !seenC[at] {
+				acyc := true
+				for _, p := range phi.Block().Preds {
+					if phi.Block().Dominates(p) {
+						acyc = false
+					}
+				}
+				if acyc {
+					seenC[at] = true
+					cands = append(cands, at)
+				}
+			}
+		}
+	}
+	sort.Slice(cands, func(i, j int) bool { return cands[i].v.Name() < cands[j].v.Name() })
+	for _, at := range cands {
+		phi := at.v.(*ssa.Phi)
+		var group []atom
+		seenAt := map[atom]bool{}
+		collect := func(l lin) {
+			for x := range l.c {
+				if p2, ok := x.v.(*ssa.Phi); ok && p2.Block() == phi.Block() && !seenAt[x] {
+					seenAt[x] = true
+					group = append(group, x)
+				}
+			}
+		}
+		for _, g := range goals {
+			collect(g)
+		}
+		for _, f := range facts {
+			collect(f.l)
+		}
+		all := true
+		for i, p := range phi.Block().Preds {
+			nf := facts
+			gs := append([]lin{}, goals...)
+			okEdge := true
+			for _, x := range group {
+				by := a.phiEdge(x, x.v.(*ssa.Phi), i)
+				if !by.ok {
+					if x == at {
+						okEdge = false
+					}
+					continue
+				}
+				nf = substAll(nf, x, by)
+				for j := range gs {
+					gs[j] = gs[j].subst(x, by)
+				}
+			}
+			if !okEdge {
+				all = false
+				break
+			}
+			nf = append(append([]cons{}, nf...), a.blockFacts(p)...)
+			if iff, ok := p.Instrs[len(p.Instrs)-1].(*ssa.If); ok && p.Succs[0] != p.Succs[1] {
+				nf = append(nf, a.condFacts(iff.Cond, p.Succs[0] == phi.Block())...)
+			}
+			if !a.proveAny(nf, gs, depth+1) {
+				all = false
+				break
+			}
+		}
+		if all {
+			return true
+		}
+	}
+	return false
 }
 
 // ----- address keys and load canonicalisation -----
@@ -464,6 +569,12 @@ func (a *fnAn) buildLoads() {
 					evs = append(evs, memEv{ins: ins, key: k, store: x, blk: b, idx: i})
 				} else {
 					unknownStores = append(unknownStores, memEv{ins: ins, blk: b, idx: i, store: x})
+					// a whole struct written to a local: it overwrites every field of it
+					if al, isAl := x.Addr.(*ssa.Alloc); isAl {
+						if _, isStruct := x.Val.Type().Underlying().(*types.Struct); isStruct {
+							evs = append(evs, memEv{ins: ins, key: addrKey{root: al}, store: x, blk: b, idx: i})
+						}
+					}
 				}
 			case *ssa.UnOp:
 				if x.Op == token.MUL {
@@ -479,18 +590,49 @@ func (a *fnAn) buildLoads() {
 	overlap := func(k1, k2 addrKey) bool {
 		return k1.root == k2.root && (strings.HasPrefix(k1.path, k2.path) || strings.HasPrefix(k2.path, k1.path))
 	}
-	for _, l := range evs {
-		if l.load == nil {
-			continue
+	// copySource: the store writes a whole struct that was just loaded from another place
+	// (`*dst = *src`, the way go/ssa lowers `dst := T{...}`): the key the same sub-path has there.
+	copySource := func(d *memEv, key addrKey) (addrKey, *ssa.UnOp, bool) {
+		if d.store == nil || d.key.root != key.root || len(d.key.path) >= len(key.path) || !strings.HasPrefix(key.path, d.key.path) {
+			return addrKey{}, nil, false
 		}
-		// nearest dominating definer with identical key
+		if _, isStruct := d.store.Val.Type().Underlying().(*types.Struct); !isStruct {
+			return addrKey{}, nil, false
+		}
+		u, ok := d.store.Val.(*ssa.UnOp)
+		if !ok || u.Op != token.MUL {
+			return addrKey{}, nil, false
+		}
+		sk, ok := keyOf(u.X)
+		if !ok {
+			if _, isAl := u.X.(*ssa.Alloc); !isAl {
+				return addrKey{}, nil, false
+			}
+			sk = addrKey{root: u.X}
+		}
+		sk.path += key.path[len(d.key.path):]
+		return sk, u, true
+	}
+	// resolve: the value the location key holds just before instruction (blk, idx): the value of
+	// the nearest dominating store to it (or an earlier load of it), provided nothing in between
+	// can have written it.
+	var resolve func(key addrKey, self ssa.Instruction, blk *ssa.BasicBlock, idx int, typ types.Type, depth int) ssa.Value
+	resolve = func(key addrKey, self ssa.Instruction, blk *ssa.BasicBlock, idx int, typ types.Type, depth int) ssa.Value {
+		if depth > 3 {
+			return nil
+		}
 		var best *memEv
 		for i := range evs {
 			d := &evs[i]
-			if d.ins == l.ins || d.key != l.key {
+			if d.ins == self {
 				continue
 			}
-			dom := (d.blk == l.blk && d.idx < l.idx) || (d.blk != l.blk && d.blk.Dominates(l.blk))
+			if d.key != key {
+				if _, _, isCopy := copySource(d, key); !isCopy {
+					continue
+				}
+			}
+			dom := (d.blk == blk && d.idx < idx) || (d.blk != blk && d.blk.Dominates(blk))
 			if !dom {
 				continue
 			}
@@ -504,44 +646,83 @@ func (a *fnAn) buildLoads() {
 			}
 		}
 		if best == nil {
-			continue
+			return nil
 		}
-		killed := false
 		between := func(k memEv) bool {
-			return k.ins != best.ins && a.mayPrecede(best.blk, best.idx, k.blk, k.idx) && a.mayPrecede(k.blk, k.idx, l.blk, l.idx)
+			if k.ins == best.ins {
+				return false
+			}
+			if !(a.mayPrecede(best.blk, best.idx, k.blk, k.idx) && a.mayPrecede(k.blk, k.idx, blk, idx)) {
+				return false
+			}
+			// the use sees what the LAST run of the definer left: k matters only if the use can be
+			// reached from k without running the definer again (in a loop whose header re-reads
+			// the location, a store in the body is followed by that re-read on the way out)
+			return reachesAvoiding(k.blk, k.idx, best.blk, best.idx, blk, idx)
 		}
 		for _, k := range evs {
-			if k.store != nil && overlap(k.key, l.key) && between(k) {
-				killed = true
-				break
+			if k.store != nil && overlap(k.key, key) && between(k) {
+				return nil
 			}
 		}
-		if !killed {
-			for _, k := range unknownStores {
-				// a store through an unknown pointer of the same value type may alias
-				if types.Identical(k.store.Val.Type(), l.load.Type()) && between(k) {
-					killed = true
-					break
-				}
+		for _, k := range unknownStores {
+			// a store through an unknown pointer of the same value type may alias
+			if types.Identical(k.store.Val.Type(), typ) && between(k) {
+				return nil
 			}
 		}
-		if !killed {
-			for _, k := range calls {
-				if callMayTouchKey(k.ins.(ssa.CallInstruction), l.key, overlap) && between(k) {
-					killed = true
-					break
-				}
+		for _, k := range calls {
+			if callMayTouchKey(k.ins.(ssa.CallInstruction), key, overlap) && between(k) {
+				return nil
 			}
 		}
-		if killed {
-			continue
+		if best.key != key {
+			sk, u, _ := copySource(best, key)
+			return resolve(sk, u, u.Block(), instrIndex(u), typ, depth+1)
 		}
 		if best.store != nil {
-			a.loadRep[l.load] = best.store.Val
-		} else {
-			a.loadRep[l.load] = best.load
+			return best.store.Val
+		}
+		return best.load
+	}
+	for _, l := range evs {
+		if l.load == nil {
+			continue
+		}
+		if v := resolve(l.key, l.ins, l.blk, l.idx, l.load.Type(), 0); v != nil {
+			a.loadRep[l.load] = v
 		}
 	}
+}
+
+// reachesAvoiding: is there a control-flow path from just after (kb, ki) to (lb, li) that does not
+// execute the instruction (db, di)?
+func reachesAvoiding(kb *ssa.BasicBlock, ki int, db *ssa.BasicBlock, di int, lb *ssa.BasicBlock, li int) bool {
+	// the rest of k's own block
+	if kb == lb && ki < li && !(db == kb && ki < di && di < li) {
+		return true
+	}
+	if kb == db && ki < di {
+		return false // runs into the definer before leaving the block
+	}
+	seen := map[*ssa.BasicBlock]bool{}
+	work := append([]*ssa.BasicBlock{}, kb.Succs...)
+	for len(work) > 0 {
+		b := work[len(work)-1]
+		work = work[:len(work)-1]
+		if seen[b] {
+			continue
+		}
+		seen[b] = true
+		if b == lb && !(b == db && di < li) {
+			return true
+		}
+		if b == db {
+			continue // entering the block runs the definer before anything behind it
+		}
+		work = append(work, b.Succs...)
+	}
+	return false
 }
 
 // callMayTouchKey: the call is handed the root object itself (or something that reaches it
